@@ -382,3 +382,20 @@ def from_model_value(m):
         a = m.approx(20)
         return Fraction(a.numerator_as_long(), a.denominator_as_long())
     return str(m)
+
+
+class PoisonRead(Exception):
+    """State left behind by an earlier operation was read before being overwritten."""
+
+
+class Poison(Model):
+    """Marks state that must be written before it is read (history independence)."""
+
+    def __init__(self, what):
+        self.what = what
+
+    def _hit(self, *a, **k):
+        raise PoisonRead(self.what)
+
+    py_truth = py_binop = py_cmp = py_getattr = py_call = py_getitem = py_len = py_iter = py_contains = _hit
+    py_float = py_str = py_setattr = py_setitem = py_hash = _hit
